@@ -37,7 +37,7 @@ class C18(Prop):
     def boundary(self):
         full = {"clock": "datetime", "step": 10, "n_steps": 3, "pop": 12, "seed": 7, "crn_keys": 2, "map_size": 10000,
                 "births": [2, 0, 1], "mort": {"mods": 1}, "disease": {"states": 3, "p": [5, 8], "self": True},
-                "stepmod": {"every": 3, "mult": 2}, "obs": {"strats": 3, "concat": True, "values": 5}}
+                "stepmod": {"every": 3, "mult": 2}, "obs": {"strats": 3, "concat": True, "values": 5}, "extras": {"pafs": [0.25, 0.5]}}
         vary = dict(full, step=1, n_steps=6, pop=6, births=[1, 0], disease=None, obs=None, stepmod={"every": 2, "mult": 3, "vary": True})
         return [{"spec": full, "hs_save": 1, "hs_resume": 2, "noise": 5}, {"spec": vary, "hs_save": 0, "hs_resume": 3, "noise": 9}]
 
@@ -48,7 +48,7 @@ class C18(Prop):
 
     def shrink(self, case):
         s = case["spec"]
-        for k in ("obs", "disease", "mort", "stepmod"):
+        for k in ("obs", "disease", "mort", "stepmod", "extras"):
             if s.get(k):
                 yield dict(case, spec=dict(s, **{k: None}))
         if s["n_steps"] > 1:
@@ -123,7 +123,7 @@ class C18(Prop):
     def tags(self, case, obs):
         s = case["spec"]
         t = [s["clock"], f"crn{s['crn_keys']}", f"boundaries:{obs.get('nsteps', 0) + 1}"]
-        for k in ("mort", "disease", "stepmod", "obs"):
+        for k in ("mort", "disease", "stepmod", "obs", "extras"):
             t.append(k if s.get(k) else "no-" + k)
         t += ["resumed-ok" for r in obs["resumed"] if not r["error"] and not r["save_error"]]
         t += ["skipped:cpython-empty-buffer-pickle-assert" for r in obs["resumed"]
